@@ -513,3 +513,34 @@ Definition quiescent (s : sys) (w : watcher) : bool :=
   | None, [], [], [], None, [] => true
   | _, _, _, _, _, _ => false
   end.
+
+(* ------------------------------------------------------------------ the ordering premise, made visible *)
+
+(* The same system with the two statements of collectStorageWriteEvents swapped for single-event batches:
+   `watchChan <- evs` before `watchCache.Add(e)`. Only used to show (Props/C05.v) that C05 depends on the
+   order in the code (cache insert first, step above): LSeqSend broadcasts the event the sequencer has built,
+   LSeqCache inserts it into the cache afterwards. *)
+Definition step_swapped (pa : params) (s : sys) (lb : label) : sys :=
+  if s_panic s then s else
+  match lb with
+  | LSeqSend =>
+      match s_cur s, s_pending s with
+      | Some e, [] =>
+          mkSys (s_committed s) (Some e) [e] (s_cache s) (s_wchan s ++ [[e]]) (s_ws s) (s_panic s)
+                (s_cachedR s) (s_hubR s) (s_spawned s)
+      | _, _ => s
+      end
+  | LSeqCache =>
+      match s_cur s, s_pending s with
+      | Some e, [_] =>
+          match ring_add (s_cache s) e with
+          | None => s_set_panic s
+          | Some r' => mkSys (s_committed s) None [] r' (s_wchan s) (s_ws s) (s_panic s)
+                             (e :: s_cachedR s) (s_hubR s) (s_spawned s)
+          end
+      | _, _ => s
+      end
+  | _ => step pa s lb
+  end.
+
+Definition run_swapped (pa : params) (ls : list label) (s : sys) : sys := fold_left (step_swapped pa) ls s.
